@@ -17,9 +17,13 @@ class C06(Spec):
             "every worker inside a loader while a sweep tick becomes due, then J+3 Loads over distinct keys (distinct shards) 1 ns "
             "apart fill the job queue and block in sendJob; 3..40 rounds; afterwards virtual time advances past every loader "
             "duration: every call must have returned and every handed-out Future must be resolved. Plus the shared random/share "
-            "scenarios. non-trivial = more Loads outstanding than the job queue holds at some instant (burst scenarios)")
+            "scenarios, loads in flight across 5..25 sweep ticks, and 257..1000 entries in ONE shard (keys congruent modulo the shard "
+            "count) that are live / rotted at a sweep tick with more traffic after it. non-trivial = more Loads outstanding than the "
+            "job queue holds at some instant, or more than 128 keys")
     trusted_base = CACHE_TRUSTED + ["hang detection: a controller goroutine sleeping on the fake clock reports calls that are still blocked "
-                                    "after (last call instant + sum of all loader durations + 8*En)"]
+                                    "after (last call instant + sum of all loader durations + 8*En)",
+                                    "live-lock detection: the harness runs as supervisor + child process; a child that makes no progress for 12 s of "
+                                    "real time (600 s on a stress line) is killed and the scenario it was executing is reported as `hang … livelock`"]
     assumptions = ["every loader returns after its scripted duration"]
 
     def oracle(self, script, impl):
@@ -31,6 +35,11 @@ class C06(Spec):
         if impl.startswith("panic"):
             return ("panic", "the cache panicked: " + impl[:200])
         sc = Scenario(script, impl)
+        if sc.hang is not None and sc.hang.startswith("livelock"):
+            head = script.split(" | ")[0]
+            return ("hang", "[%s] live-lock: a goroutine of the cache spins for ever (the fake clock is frozen, the scenario made no "
+                            "progress for seconds of real time and the harness process was killed by its supervisor): %s"
+                    % (head, sc.hang[:200]))
         if sc.hang is not None:
             head = script.split(" | ")[0]
             return ("hang", "[%s] still blocked after virtual time advanced to %d ns (every loader had returned): %s"
@@ -50,7 +59,7 @@ class C06(Spec):
         if not script.startswith("cfg"):
             return False
         head = dict(kv.split("=") for kv in script.split(" | ")[0].split()[1:])
-        return script.count(" load ") > int(head["J"]) + int(head["P"])
+        return script.count(" load ") > int(head["J"]) + int(head["P"]) or script.count(" k=") > 128
 
 
 SPEC = C06()
